@@ -62,7 +62,7 @@ package dbft
 // ---- ghost state ----
 
 //@ ghost gBroadcasts Int
-//@ ghost gLastBcast Ref
+//@ ghost gLastBcast Ref ConsensusPayload
 //@ ghost gTimerH Int
 //@ ghost gTimerV Int
 //@ ghost gTimerD Int
@@ -70,6 +70,11 @@ package dbft
 //@ ghost gClock Int
 //@ ghost gPool RefSeq Transaction
 //@ ghost gVerified Ref
+// C03: what this node has already said at this height / in this view.
+//@ ghost gCommit Ref ConsensusPayload
+//@ ghost gPreCommit Ref ConsensusPayload
+//@ ghost gPrep Ref ConsensusPayload
+//@ ghost gMaxOwnView Int
 //@ ghost gTipHeight Int
 //@ ghost gTipHash Ref
 
@@ -265,7 +270,18 @@ package dbft
 //@ pred cleanProposal() = isnil(self.TransactionHashes) && len(self.TransactionHashes) == 0 && len(self.Transactions) == 0 && forallOf(Transaction, t, !has(self.Transactions, t.Hash()))
 //@        && len(self.MissingTransactions) == 0 && self.header == nil && self.block == nil && self.preHeader == nil && self.preBlock == nil
 
+// SAID: the ghosts mirror this node's own slots (A7: nobody else can fill them).
+//@ pred said() = implies(self.MyIndex >= 0, gCommit == self.CommitPayloads[self.MyIndex] && gPreCommit == self.PreCommitPayloads[self.MyIndex] && gPrep == self.PreparationPayloads[self.MyIndex])
+//@        && implies(self.MyIndex < 0, gCommit == nil && gPreCommit == nil && gPrep == nil)
+//@        && implies(gCommit != nil || gPreCommit != nil || gPrep != nil, rsor())
+//@        && implies(self.Config.WatchOnly(), gCommit == nil && gPreCommit == nil && gPrep == nil)
+//@        && gMaxOwnView <= self.ViewNumber
+//@        && implies(gCommit != nil, gCommit.ViewNumber() == self.ViewNumber) && implies(gPreCommit != nil, gPreCommit.ViewNumber() == self.ViewNumber)
+//@        && implies(gCommit != nil, self.header != nil && self.header.Verify(self.Validators[self.MyIndex], gCommit.GetCommit().Signature()) == nil)
+//@        && implies(gPreCommit != nil, self.preBlock != nil && self.preBlock.Verify(self.Validators[self.MyIndex], gPreCommit.GetPreCommit().Data()) == nil)
+//@ pred locked() = gCommit != nil || gPreCommit != nil
 //@ bundle INV
+//@   ensures [C03] @said said()
 //@   ensures [C11] @wf wf()
 //@   ensures [C11] @slot slot()
 //@   ensures [C04] @prep prep()
@@ -275,6 +291,9 @@ package dbft
 
 //@ bundle U
 //@   requires @wf wf() && slot()
+//@   requires [C03] @said said()
+//@   ensures  [C03] @lock implies(old(locked()), self.ViewNumber == old(self.ViewNumber) && implies(old(gCommit) != nil, gCommit == old(gCommit)) && implies(old(gPreCommit) != nil, gPreCommit == old(gPreCommit)))
+//@   ensures  [C03] @sameViewSameWord implies(self.ViewNumber == old(self.ViewNumber) && old(gPrep) != nil, gPrep == old(gPrep))
 //@   requires [C04] @prep prep()
 //@   requires [C02,C15] @prop prop()
 //@   requires [C02,C01] @verc verc()
@@ -288,6 +307,8 @@ package dbft
 // loop invariant shared by the loops that call back into OnReceive
 //@ bundle LOOPU
 //@   use INV
+//@   ensures  [C03] @lock implies(old(locked()), self.ViewNumber == old(self.ViewNumber) && implies(old(gCommit) != nil, gCommit == old(gCommit)) && implies(old(gPreCommit) != nil, gPreCommit == old(gPreCommit)))
+//@   ensures  [C03] @sameViewSameWord implies(self.ViewNumber == old(self.ViewNumber) && old(gPrep) != nil, gPrep == old(gPrep))
 //@   ensures sameHeight() && self.ViewNumber >= old(self.ViewNumber) && heapMono() && timerKept()
 
 // ---- more externs ----
@@ -339,7 +360,7 @@ package dbft
 //@   modifies nothing
 
 //@ func (*Context).reset
-//@   requires base() && implies(view > 0, wf() && slot() && tip())
+//@   requires base() && implies(view > 0, wf() && slot() && tip() && view > self.ViewNumber)
 //@   requires ts + self.TimestampIncrement <= 18446744073709551615
 //@   use INV
 //@   ensures self.ViewNumber == view
@@ -347,7 +368,12 @@ package dbft
 //@   ensures [C05] @cleanHeight implies(view == 0, !self.blockProcessed && !self.preBlockProcessed && !self.txSubscriptionOn && self.lastBlockTimestamp == ts)
 //@   ensures implies(view > 0, sameHeight() && unchanged(self.CommitPayloads, self.PreCommitPayloads, self.preBlockProcessed, self.blockProcessed))
 //@   ensures forall(i, 0, NN(), self.PreparationPayloads[i] == nil && self.ChangeViewPayloads[i] == nil) && implies(view == 0, forall(i, 0, NN(), self.CommitPayloads[i] == nil && self.PreCommitPayloads[i] == nil))
-//@   modifies Context.*, heap HeightView.*, gTipHeight, gTipHash
+//@   ghost gPrep = nil
+//@   ghost gCommit = ite(view == 0, nil, gCommit)
+//@   ghost gPreCommit = ite(view == 0, nil, gPreCommit)
+//@   ghost gMaxOwnView = ite(view == 0, 0, gMaxOwnView)
+//@   requires [C03] @lock implies(view > 0, !locked() && said())
+//@   modifies Context.*, heap HeightView.*, gTipHeight, gTipHash, gPrep, gCommit, gPreCommit, gMaxOwnView
 //@   loop 1: invariant len(c.LastChangeViewPayloads) == NN() && len(c.ChangeViewPayloads) == NN() && unchanged(c.ChangeViewPayloads, c.Validators)
 
 //@ pred truncClock() = (gClock / self.TimestampIncrement) * self.TimestampIncrement
@@ -423,8 +449,19 @@ package dbft
 //@   requires wf() && msg != nil
 //@   requires [C13] @silent notWatchOnly()
 //@   requires msg.ValidatorIndex() == self.MyIndex
+//@   requires [C03] @oneCommit implies(msg.Type() == CommitType, gCommit == nil || gCommit == msg)
+//@   requires [C03] @onePreCommit implies(msg.Type() == PreCommitType, gPreCommit == nil || gPreCommit == msg)
+//@   requires [C03] @onePreparation implies(msg.Type() == PrepareRequestType || msg.Type() == PrepareResponseType, gPrep == nil || gPrep == msg)
+//@   requires [C03] @lockedNoChangeView implies(msg.Type() == ChangeViewType, gCommit == nil && gPreCommit == nil)
+//@   requires [C03] @viewMonotone msg.ViewNumber() >= gMaxOwnView
+//@   ghost gCommit = ite(msg.Type() == CommitType, msg, gCommit)
+//@   ghost gPreCommit = ite(msg.Type() == PreCommitType, msg, gPreCommit)
+//@   ghost gPrep = ite(msg.Type() == PrepareRequestType || msg.Type() == PrepareResponseType, msg, gPrep)
+//@   ghost gMaxOwnView = max(gMaxOwnView, msg.ViewNumber())
 //@   ensures gLastBcast == msg && gBroadcasts == old(gBroadcasts) + 1
-//@   modifies gBroadcasts, gLastBcast
+//@   ensures gCommit == ite(msg.Type() == CommitType, msg, old(gCommit)) && gPreCommit == ite(msg.Type() == PreCommitType, msg, old(gPreCommit))
+//@   ensures gPrep == ite(msg.Type() == PrepareRequestType || msg.Type() == PrepareResponseType, msg, old(gPrep)) && gMaxOwnView == max(old(gMaxOwnView), msg.ViewNumber())
+//@   modifies gBroadcasts, gLastBcast, gCommit, gPreCommit, gPrep, gMaxOwnView
 //@ callers [C13,C03] Config.Broadcast : (*DBFT).broadcast
 
 //@ func (*DBFT).sendPrepareRequest
@@ -436,6 +473,7 @@ package dbft
 //@   wraps d.timePerBlock<<(d.ViewNumber+1) unless aview()
 //@ func (*DBFT).sendChangeView
 //@   use U
+//@   requires [C03] @lock !locked()
 //@   ensures [C10] @arms notWatchOnly() == false || gTimerArms > old(gTimerArms)
 //@   wraps d.ViewNumber+1 unless aview()
 //@   wraps c.ViewNumber+1 unless aview()
@@ -453,7 +491,9 @@ package dbft
 //@   ensures forall(i, 0, NN(), implies(i != self.MyIndex, self.PreparationPayloads[i] == old(self.PreparationPayloads[i])))
 //@   ensures [C04] @names self.PreparationPayloads[self.MyIndex] != nil && gLastBcast == self.PreparationPayloads[self.MyIndex]
 //@        && self.PreparationPayloads[self.MyIndex].GetPrepareResponse().PreparationHash() == self.PreparationPayloads[self.PrimaryIndex].Hash()
-//@   modifies Context.PreparationPayloads, gBroadcasts, gLastBcast
+//@   requires [C03] @said said() && gPrep == nil
+//@   ensures [C03] @said said()
+//@   modifies Context.PreparationPayloads, gBroadcasts, gLastBcast, gPrep, gMaxOwnView
 //@ func (*DBFT).sendPreCommit
 //@   requires wf() && slot()
 //@   requires [C13] @silent notWatchOnly()
@@ -461,7 +501,10 @@ package dbft
 //@   requires [C04] @evidence rsor() && hasAllTx() && prepCount() >= specM(NN()) && prep()
 //@   ensures [C11] @wf wf()
 //@   ensures [C11] @slot slot()
-//@   modifies Context.PreCommitPayloads, Context.preBlock, Context.preHeader, gBroadcasts, gLastBcast
+//@   requires [C03] @said said()
+//@   ensures [C03] @said said()
+//@   ensures [C03] @lock implies(old(gPreCommit) != nil, gPreCommit == old(gPreCommit))
+//@   modifies Context.PreCommitPayloads, Context.preBlock, Context.preHeader, gBroadcasts, gLastBcast, gPreCommit, gMaxOwnView
 //@ func (*DBFT).sendCommit
 //@   requires wf() && slot() && verc()
 //@   requires [C13] @silent notWatchOnly()
@@ -470,7 +513,10 @@ package dbft
 //@   ensures [C11] @wf wf()
 //@   ensures [C11] @slot slot()
 //@   ensures [C02,C01] @verc verc()
-//@   modifies Context.CommitPayloads, Context.header, gBroadcasts, gLastBcast
+//@   requires [C03] @said said()
+//@   ensures [C03] @said said()
+//@   ensures [C03] @lock implies(old(gCommit) != nil, gCommit == old(gCommit))
+//@   modifies Context.CommitPayloads, Context.header, gBroadcasts, gLastBcast, gCommit, gMaxOwnView
 //@ func (*Context).makeCommit
 //@   inline
 //@   at call b.Sign: assert [C07] @afterPreBlock implies(amev(), c.preBlockProcessed)
@@ -478,15 +524,20 @@ package dbft
 //@   requires wf() && slot()
 //@   ensures [C11] @wf wf()
 //@   requires [C13] @silent notWatchOnly()
-//@   modifies Context.MissingTransactions, Context.Transactions, gBroadcasts, gLastBcast, gClock
+//@   requires [C03] @said said()
+//@   ensures gMaxOwnView <= self.ViewNumber && gMaxOwnView >= old(gMaxOwnView)
+//@   modifies Context.MissingTransactions, Context.Transactions, gBroadcasts, gLastBcast, gClock, gMaxOwnView
 //@ func (*Context).makeRecoveryMessage
 //@   requires wf() && slot()
 //@   ensures result != nil && (result.ValidatorIndex() == self.MyIndex || self.MyIndex < 0)
+//@   ensures result.Type() == RecoveryMessageType && result.ViewNumber() == self.ViewNumber
 //@   modifies nothing
 //@ func (*DBFT).sendRecoveryMessage
 //@   requires wf() && slot()
 //@   requires [C13] @silent notWatchOnly()
-//@   modifies gBroadcasts, gLastBcast
+//@   requires [C03] @said said()
+//@   ensures gMaxOwnView <= self.ViewNumber && gMaxOwnView >= old(gMaxOwnView)
+//@   modifies gBroadcasts, gLastBcast, gMaxOwnView
 
 // ---- check.go ----
 
@@ -514,6 +565,7 @@ package dbft
 //@ callers [C02,C05] Config.ProcessBlock : (*DBFT).checkCommit
 //@ func (*DBFT).checkChangeView
 //@   use U
+//@   requires [C03] @lock !locked()
 //@   loop 1: invariant 0 <= count && count <= idx
 //@   loop 1: invariant [C04] @counts count == count(j, 0, idx, self.ChangeViewPayloads[j] != nil && self.ChangeViewPayloads[j].GetChangeView().NewViewNumber() >= view)
 
@@ -522,6 +574,7 @@ package dbft
 //@ func (*DBFT).addTransaction
 //@   use U
 //@   requires tx != nil && rsor()
+//@   requires [C03] @lock !locked() && gPrep == nil
 //@ func (*DBFT).Start
 //@   ensures [C10] @timer implies(aview(), timerOK())
 //@   requires cfgOK() && 0 <= self.rttEstimates.idx && self.rttEstimates.idx < 70
@@ -537,6 +590,7 @@ package dbft
 //@ func (*DBFT).initializeConsensus
 //@   requires base() && implies(view > 0, wf() && slot() && tip() && view > self.ViewNumber)
 //@   requires [C04] @viewEvidence implies(view > 0, cvCount(view) >= specM(NN()))
+//@   requires [C03] @lock implies(view > 0, !locked() && said())
 //@   requires ts + self.TimestampIncrement <= 18446744073709551615
 //@   use INV
 //@   ensures self.ViewNumber >= view
@@ -580,16 +634,19 @@ package dbft
 //@ func (*DBFT).onPrepareResponse
 //@   use U
 //@   requires admitted(msg) && msg.Type() == PrepareResponseType && msg.ViewNumber() <= self.ViewNumber
+//@   assume @A7 msg.ValidatorIndex() != self.MyIndex || self.PreparationPayloads[self.MyIndex] != nil
 //@ func (*DBFT).onChangeView
 //@   use U
 //@   requires admitted(msg) && msg.Type() == ChangeViewType
 //@ func (*DBFT).onPreCommit
 //@   use U
 //@   requires admitted(msg) && msg.Type() == PreCommitType && msg.ViewNumber() <= self.ViewNumber
+//@   assume @A7 msg.ValidatorIndex() != self.MyIndex || self.PreCommitPayloads[self.MyIndex] != nil
 //@   requires [C07] @enabled amev()
 //@ func (*DBFT).onCommit
 //@   use U
 //@   requires admitted(msg) && msg.Type() == CommitType && msg.ViewNumber() <= self.ViewNumber
+//@   assume @A7 msg.ValidatorIndex() != self.MyIndex || self.CommitPayloads[self.MyIndex] != nil
 //@ func (*DBFT).onRecoveryRequest
 //@   use U
 //@   requires admitted(msg)
@@ -612,26 +669,31 @@ package dbft
 //@ func (*DBFT).createAndCheckBlock
 //@   use U
 //@   requires rsor() && hasAllTx()
+//@   requires [C03] @lock !locked()
 //@   ensures implies(result, unchanged(self.PreparationPayloads, self.PrimaryIndex, self.ViewNumber, self.TransactionHashes, self.Transactions, self.CommitPayloads, self.PreCommitPayloads))
 //@   ensures [C04] @blockAccepted implies(result, gVerified != nil && (gVerified == self.block || gVerified == self.preBlock))
 //@ func (*DBFT).updateExistingPayloads
-//@   requires wf() && slot() && msg != nil && !rsor() && verc()
-//@   loop 1: invariant wf() && slot() && !rsor() && verc()
+//@   requires wf() && slot() && msg != nil && !rsor() && verc() && said()
+//@   loop 1: invariant wf() && slot() && !rsor() && verc() && said()
 //@   loop 1: invariant forall(j, 0, idx, implies(self.PreparationPayloads[j] != nil && self.PreparationPayloads[j].Type() == PrepareResponseType, self.PreparationPayloads[j].GetPrepareResponse().PreparationHash() == msg.Hash()))
-//@   ensures wf() && slot() && !rsor() && verc()
+//@   ensures wf() && slot() && !rsor() && verc() && said()
 //@   ensures [C04] @filtered forall(j, 0, NN(), implies(self.PreparationPayloads[j] != nil && self.PreparationPayloads[j].Type() == PrepareResponseType, self.PreparationPayloads[j].GetPrepareResponse().PreparationHash() == msg.Hash()))
 // "it validates payloads we may have received before PrepareRequest": once it returns, no early commit (pre-commit) of the current view is left unverified.
 //@   ensures [C02,C01] @earlyCommitsVerified implies(!amev(), self.header != nil || forall(i, 0, NN(), !curC(i)))
 //@   modifies Context.PreparationPayloads, Context.CommitPayloads, Context.PreCommitPayloads, Context.header, Context.preHeader, Context.preBlock
 //@ func (*DBFT).verifyPreCommitPayloadsAgainstPreBlock
-//@   requires wf() && slot()
+//@   requires wf() && slot() && said()
+//@   ensures [C03] @said said()
+//@   loop 1: invariant said()
 //@   loop 1: invariant wf() && slot() && unchanged(self.PreparationPayloads, self.TransactionHashes, self.Transactions, self.ViewNumber, self.PrimaryIndex)
 //@   loop 1: invariant implies(old(self.preBlock) != nil, self.preBlock == old(self.preBlock))
 //@   ensures wf() && slot()
 //@   ensures implies(old(self.preBlock) != nil, self.preBlock == old(self.preBlock))
 //@   modifies Context.PreCommitPayloads, Context.preHeader, Context.preBlock
 //@ func (*DBFT).verifyCommitPayloadsAgainstHeader
-//@   requires wf() && slot()
+//@   requires wf() && slot() && said()
+//@   ensures [C03] @said said()
+//@   loop 1: invariant said()
 //@   loop 1: invariant wf() && slot() && unchanged(self.PreparationPayloads, self.ViewNumber, self.PrimaryIndex, self.preBlockProcessed)
 //@   loop 1: invariant implies(self.header != nil, forall(j, 0, idx, implies(curC(j), verC(j)))) && implies(self.header == nil, !canMakeHeader() || forall(j, 0, idx, !curC(j)))
 //@   loop 1: invariant implies(old(self.header) != nil, self.header == old(self.header))
